@@ -10,7 +10,12 @@
 (* and after Close the driver reads the directory back:                    *)
 (*   cur, cb   record ids in the current file (a truncated or malformed    *)
 (*             record shows as a negative id) and its size in bytes,       *)
-(*   files     the backups, oldest first: [ts, ageh, recs, gz],            *)
+(*   files     the backups, oldest first: [ts, ageh, recs, gz]; size rule: *)
+(*             ts / ageh = the TRUE instant the backup stands for (start   *)
+(*             of its file: the instant its name was handed out, or the    *)
+(*             instant a pre-existing backup was created for) - not the    *)
+(*             name decoded by the logger's own layout - in seconds        *)
+(*             relative to / hours before the start of the history,        *)
 (*   junk      bytes in any file that are not a complete record.           *)
 (* "burst" = several writes without a barrier in between, "closeq" = Close *)
 (* called with records still queued (RotateLogRel!BurstFailed).  An event  *)
